@@ -9,14 +9,17 @@ POP_ENGINES = ("EADeme", "DEDeme", "SHADEDeme")
 
 
 def h_step(P, kinds, shape, props, L=2, hibernation=False, generations=2, mech="stub", warm=1, monotone=True, maximize=False,
-           deme_filters="limit1"):
+           deme_filters="limit1", objective="smooth"):
     w = build(P, kinds, shape, L=L, hibernation=hibernation, generations=generations, mech=mech, warm=warm, maximize=maximize,
-              deme_filters=deme_filters)
+              deme_filters=deme_filters, objective=objective)
     tree = w.tree
     props = set(props)
     if "C09" in props:
         for _, d in tree.all_demes:
             d.centroid  # a report / filter looked at the centroid before this metaepoch
+    if "C02" in props:
+        _c02_end_to_end(P, w, tree)
+    best_before = [tree.best_individual.fitness]
     go_symbolic(w, monotone=monotone)
     height = len(tree.levels)
 
@@ -164,6 +167,10 @@ def h_step(P, kinds, shape, props, L=2, hibernation=False, generations=2, mech="
         P.oblige("C01.every_evaluated_point_in_box", all(all(lo[j] <= x[j] <= hi[j] for j in range(len(lo))) for (_, _, x, _) in w.log.entries))
         P.oblige("C01.every_stored_genome_and_seed_in_box", all(bool(np.all(i.genome >= lo) and np.all(i.genome <= hi)) for _, d in tree.all_demes for g in d.history for i in g)
                  and all(d._sprout_seed is None or bool(np.all(d._sprout_seed.genome >= lo) and np.all(d._sprout_seed.genome <= hi)) for _, d in tree.all_demes))
+    if "C02" in props:
+        _c02_end_to_end(P, w, tree)
+    if "C04" in props:
+        _best(P, w, tree, best_before, maximize)
     # =========================== C09 (centroids are current)
     if "C09" in props:
         for lvl, d in tree.all_demes:
@@ -343,6 +350,9 @@ def tree_cases(prop, tier, hibernation_values=(False,), extra=None):
     for hib in hibernation_values[:1]:
         add(f"step.ea-cma.multi-sprout.hib{hib}", kinds=["ea", "cma"], shape=[[0]], generations=1, L=3, hibernation=hib, deme_filters="none")
         add(f"step.ea-ea-cma.multi-sprout.hib{hib}", kinds=["ea", "ea", "cma"], shape=[[0], [0]], generations=1, L=3, hibernation=hib, deme_filters="none")
+    # plateau objective (exact ties, zero gradients: local searches that finish without a single iterate)
+    add("step.ea-local.terrace", kinds=["ea", "local"], shape=[[0, 0]], generations=1, L=3, hibernation=hibernation_values[0], objective="terrace")
+    add("step.ea-cma.terrace", kinds=["ea", "cma"], shape=[[0]], generations=2, L=2, hibernation=hibernation_values[0], objective="terrace")
     # more than two generations per metaepoch
     for kinds in (("de", "cma"), ("ea", "cma"), ("shade", "cma")):
         add(f"step.{'-'.join(kinds)}.g3", kinds=list(kinds), shape=[[0]], generations=3, L=2, hibernation=hibernation_values[0])
@@ -404,3 +414,58 @@ def condition_cases(tier):
         cs.append(dict(name=f"conditions.{'-'.join(kinds)}.shape{shape}", fn=h_conditions, params=dict(kinds=list(kinds), shape=shape),
                        profile="fp", budget_s=900, weight=5))
     return cs
+
+
+def _best(P, w, tree, best_so_far, maximize):
+    allinds = [ind for _, d in tree.all_demes for gen in d.history for ind in gen]
+    tb = tree.best_individual
+    better = (lambda a, b: a > b) if maximize else (lambda a, b: a < b)
+    P.oblige("C04.tree_best_is_member", any(tb is x for x in allinds))
+    P.oblige("C04.tree_best_is_best", not any(better(x.fitness, tb.fitness) for x in allinds))
+    for _, d in tree.all_demes:
+        db = d.best_individual
+        mine = [ind for gen in d.history for ind in gen]
+        P.oblige("C04.deme_best_is_member_and_best", any(db is x for x in mine) and not any(better(x.fitness, db.fitness) for x in mine))
+    P.oblige("C04.best_never_worsens", not better(best_so_far[0], tb.fitness))
+    best_so_far[0] = tb.fitness
+    # the best equals the best objective value ever observed (all engines except the local optimiser)
+    if "local" not in w.kinds:
+        vals = [e[3] for e in w.log.entries]
+        P.oblige("C04.best_is_best_ever_evaluated", tb.fitness == (max(vals) if maximize else min(vals)))
+
+
+
+def pure_objective(w, level, x):
+    """the recording objective's formula, evaluated without logging"""
+    return w.log.value(x)
+
+
+def metaepoch_digests(d):
+    import hashlib
+    out = []
+    for me in d._history:
+        h = hashlib.sha256()
+        for gen in me:
+            h.update(b"|G")
+            for ind in gen:
+                h.update(np.asarray(ind.genome, dtype=np.float64).tobytes())
+                h.update(np.float64(ind.fitness).tobytes())
+        out.append(h.hexdigest())
+    return out
+
+
+def _c02_end_to_end(P, w, tree):
+    seen = w.__dict__.setdefault("_c02_digests", {})
+    for lvl, d in tree.all_demes:
+        for gen in d.history:
+            for ind in gen:
+                ok = ind.fitness == pure_objective(w, lvl, ind.genome) or abs(ind.fitness) == np.inf
+                P.oblige("C02.stored_fitness_is_objective_of_stored_genome", bool(ok))
+        if d._sprout_seed is not None:
+            s = d._sprout_seed
+            P.oblige("C02.seed_fitness_is_objective_of_seed_genome", bool(s.fitness == pure_objective(w, lvl - 1, s.genome)))
+        now = metaepoch_digests(d)
+        old = seen.get(d.id)
+        if old is not None:
+            P.oblige("C02.recorded_generations_never_change", now[: len(old)] == old)
+        seen[d.id] = now
